@@ -117,9 +117,26 @@ class ExprGen:
             if self.public:
                 return -Variable(name) if self.rng.random() < 0.5 else +Variable(name)
             return Variable(name, star=self.rng.random() < 0.5)
+        if self.rich and allow_mark and r < 0.2:
+            # a counterfactual variable of its own (long-form terms mix worlds), with or without a value mark, 1..3 interventions
+            others = [n for n in self.names if n != name]
+            if others:
+                base = Variable(name) if self.rng.random() < 0.5 else (+Variable(name) if self.rng.random() < 0.5 else -Variable(name))
+                ivs = [(+Variable(n) if self.rng.random() < 0.3 else Variable(n)) for n in self.rng.sample(others, min(len(others), self.rng.randint(1, 3)))]
+                return base @ ivs
         return Variable(name)
 
     def atom(self, avail=None):
+        """A random term; combining a counterfactual child with the P[...] builder can be contradictory (ValueError): retry."""
+        from y0.dsl import P, Variable
+        for _ in range(30):
+            try:
+                return self._atom(avail)
+            except (ValueError, TypeError):
+                continue
+        return P(Variable(list(avail or self.names)[0]))
+
+    def _atom(self, avail=None):
         from y0.dsl import PP, P, Q, Variable
         rng = self.rng
         names = list(avail or self.names)
